@@ -18,6 +18,12 @@ import LitexModel.Stream.NumG
   * `Coop i`            — a cooperative cycle: valid = 1 and ready = 1 (any token).
   * `ProgressWithin e K`  — from every reachable state, `n*K` cooperative cycles contain ≥ `n` handshakes.
   * `DeliversWithin e K`  — from every reachable state, `n*K` cooperative cycles deliver ≥ `n` tokens.
+  * `AcceptsWithin e K`   — from every reachable state, `n*K` cooperative cycles accept ≥ `n` tokens (the sink is
+    served); `…WithinC e C K` are the same with a stronger cooperation assumption `C` on each cycle (Gate: enabled).
+  * `KeepsContractX e X`  — `KeepsContract` under an extra, explicit assumption `X` on each cycle boundary
+    (Shifter: `shift` held while a token waits at the source).
+  Every bound `K` below is tight: the harness measures, from every explored state of the real netlist, the longest
+  cooperative run without a handshake / delivery / sink handshake, and reports any excess over `K` as a disagreement.
 -/
 namespace Litex.C04
 open Litex.Stream Litex.Stream.Elem
